@@ -19,6 +19,14 @@ Proof.
   - constructor. assumption.
 Qed.
 
+Lemma sublist_skip_end : forall a b t, Sublist a b -> Sublist a (b ++ [t]).
+Proof.
+  intros a b t H. induction H; simpl.
+  - constructor.
+  - constructor. assumption.
+  - constructor. assumption.
+Qed.
+
 Lemma sublist_prefix : forall a q b, Sublist (a ++ q) b -> Sublist a b.
 Proof.
   intros a q b H. remember (a ++ q) as l. revert a q Heql. induction H; intros a0 q Heq.
@@ -58,22 +66,35 @@ Record winv (s : wstate) : Prop := mkWinv {
   wi_order : Sublist (w_started s ++ w_tasks s) (w_accepted s);
   wi_all : Permutation (w_accepted s) (w_started s ++ w_tasks s ++ w_drained s);
   wi_exec : Permutation (w_started s) (w_executed s ++ w_running s);
-  wi_cap : (length (w_tasks s) <= Nat.max (w_cap s) 1)%nat
+  wi_cap : (length (w_tasks s) <= w_cap s)%nat
 }.
 
 Lemma wstep_inv : forall s o s', winv s -> wstep s o = Some s' -> winv s'.
 Proof.
-  intros s o s' [H1 H2 H3 H4] H. destruct o as [t|t|i|i|i| |]; simpl in H.
-  - match type of H with (if ?c then _ else _) = _ => destruct c eqn:Er end; [|discriminate].
-    inversion H; subst; clear H. constructor; simpl; auto.
+  intros s o s' [H1 H2 H3 H4] H. destruct o as [t|t i|t|t|i|i|i| |]; simpl in H.
+  - destruct (Nat.ltb (length (w_tasks s)) (w_cap s)) eqn:Er; [|discriminate].
+    inversion H; subst; clear H. apply Nat.ltb_lt in Er. constructor; simpl; auto.
     + rewrite app_assoc. apply sublist_snoc. exact H1.
     + rewrite H2. rewrite <- !app_assoc. apply Permutation_app_head.
       apply Permutation_app_head. apply Permutation_app_comm.
-    + rewrite app_length. simpl.
-      destruct (Nat.ltb (length (w_tasks s)) (w_cap s)) eqn:El.
-      * apply Nat.ltb_lt in El. lia.
-      * apply andb_prop in Er. destruct Er as [Er _]. apply andb_prop in Er. destruct Er as [_ E0].
-        apply Nat.eqb_eq in E0. lia.
+    + rewrite app_length. simpl. lia.
+  - (* rendezvous with worker i *)
+    destruct (w_tasks s) as [|t0 rest] eqn:Et; [|discriminate].
+    destruct (nth i (w_workers s) WGone) eqn:En; try discriminate.
+    inversion H; subst; clear H. rewrite app_nil_r in *. simpl in *. constructor; simpl.
+    + rewrite app_nil_r. apply sublist_snoc. exact H1.
+    + rewrite H2. rewrite <- !app_assoc. apply Permutation_app_head. simpl.
+      apply Permutation_sym. apply Permutation_cons_append.
+    + unfold w_running. simpl. rewrite (flat_set_nth_idle_busy _ _ _ En).
+      rewrite H3. unfold w_running. rewrite <- app_assoc. apply Permutation_app_head.
+      apply Permutation_sym. apply Permutation_cons_append.
+    + lia.
+  - (* rendezvous with Drain *)
+    destruct (w_tasks s) as [|t0 rest] eqn:Et; [|discriminate].
+    destruct (Nat.eqb (w_cap s) 0); [|discriminate].
+    inversion H; subst; clear H. rewrite app_nil_r in *. simpl in *. constructor; simpl; auto.
+    + rewrite app_nil_r. apply sublist_skip_end. exact H1.
+    + rewrite H2. rewrite <- !app_assoc. apply Permutation_app_head. reflexivity.
   - destruct (w_quit s); inversion H; subst. constructor; auto.
   - destruct (nth i (w_workers s) WGone) eqn:En; try discriminate.
     destruct (w_tasks s) as [|t rest] eqn:Et; [discriminate|].
@@ -111,23 +132,27 @@ Proof.
   destruct (wstep s o) as [s'|] eqn:E; [apply IH; eapply wstep_inv; eauto|apply IH; exact H].
 Qed.
 
+Lemma wstep_cap : forall s o s', wstep s o = Some s' -> w_cap s' = w_cap s.
+Proof.
+  intros s o s' E. destruct o as [t|t i|t|t|i|i|i| |]; simpl in E;
+    repeat match type of E with
+           | (if ?c then _ else _) = _ => destruct c
+           | match ?x with _ => _ end = _ => destruct x
+           end; try discriminate; inversion E; reflexivity.
+Qed.
+
 (* all schedules of Enqueue callers, workers, Drain and quit *)
 Lemma workers_safe : forall cap n ops,
   let s := wrun (w_init cap n) ops in
   Sublist (w_started s ++ w_tasks s) (w_accepted s) /\
   Permutation (w_accepted s) (w_started s ++ w_tasks s ++ w_drained s) /\
   Permutation (w_started s) (w_executed s ++ w_running s) /\
-  (length (w_tasks s) <= Nat.max cap 1)%nat.
+  (length (w_tasks s) <= cap)%nat.
 Proof.
   intros cap n ops. destruct (wrun_inv ops _ (winv_init cap n)) as [H1 H2 H3 H4].
   assert (Hc : forall ops s, w_cap (wrun s ops) = w_cap s).
   { clear. induction ops as [|o ops IH]; intros s; simpl; [reflexivity|].
-    destruct (wstep s o) as [s'|] eqn:E; [|apply IH]. rewrite IH.
-    destruct o; simpl in E;
-      repeat match type of E with
-             | (if ?c then _ else _) = _ => destruct c
-             | match ?x with _ => _ end = _ => destruct x
-             end; try discriminate; inversion E; reflexivity. }
+    destruct (wstep s o) as [s'|] eqn:E; [|apply IH]. rewrite IH. eapply wstep_cap; eauto. }
   rewrite Hc in H4. simpl in H4. auto.
 Qed.
 
@@ -136,16 +161,11 @@ Proof. intros A l. induction l as [|y l IH]; intros i x; destruct i; simpl; auto
 
 Lemma wstep_workers_len : forall s o s', wstep s o = Some s' -> length (w_workers s') = length (w_workers s).
 Proof.
-  intros s o s' E. destruct o as [t|t|i|i|i| |]; simpl in E.
-  - match type of E with (if ?c then _ else _) = _ => destruct c end; [|discriminate]. inversion E; reflexivity.
-  - destruct (w_quit s); inversion E; reflexivity.
-  - destruct (nth i (w_workers s) WGone); try discriminate. destruct (w_tasks s); [discriminate|].
-    inversion E; simpl. apply set_nth_length.
-  - destruct (nth i (w_workers s) WGone); try discriminate. inversion E; simpl. apply set_nth_length.
-  - destruct (nth i (w_workers s) WGone); try discriminate. destruct (w_quit s); [|discriminate].
-    inversion E; simpl. apply set_nth_length.
-  - inversion E; reflexivity.
-  - inversion E; reflexivity.
+  intros s o s' E. destruct o as [t|t i|t|t|i|i|i| |]; simpl in E;
+    repeat match type of E with
+           | (if ?c then _ else _) = _ => destruct c
+           | match ?x with _ => _ end = _ => destruct x
+           end; try discriminate; inversion E; simpl; try reflexivity; apply set_nth_length.
 Qed.
 
 (* one worker (Start(1)): tasks are executed in the order in which they were started, i.e. in
@@ -162,8 +182,14 @@ Proof.
     apply IH; [rewrite (wstep_workers_len _ _ _ E); exact Hw|].
     destruct (w_workers s) as [|w [|w2 ws]] eqn:Ews; simpl in Hw; try discriminate.
     unfold w_running in *. rewrite Ews in He.
-    destruct o as [t|t|i|i|i| |]; simpl in E.
+    destruct o as [t|t i|t|t|i|i|i| |]; simpl in E.
     - match type of E with (if ?c then _ else _) = _ => destruct c end; [|discriminate].
+      inversion E; subst; simpl. rewrite Ews. exact He.
+    - destruct (w_tasks s); [|discriminate]. rewrite Ews in E.
+      destruct i as [|i]; simpl in E; [|destruct i; discriminate].
+      destruct w; try discriminate. inversion E; subst; simpl. simpl in He. rewrite app_nil_r in He.
+      rewrite He. reflexivity.
+    - destruct (w_tasks s); [|discriminate]. destruct (Nat.eqb (w_cap s) 0); [|discriminate].
       inversion E; subst; simpl. rewrite Ews. exact He.
     - destruct (w_quit s); inversion E; subst. rewrite Ews. exact He.
     - rewrite Ews in E. destruct i as [|i]; simpl in E; [|destruct i; discriminate].
@@ -180,4 +206,61 @@ Proof.
   split; [exact He|].
   destruct (wrun_inv ops _ (winv_init cap 1)) as [H1 _ _ _].
   apply sublist_prefix in H1. simpl in *. rewrite He in H1. eapply sublist_prefix. exact H1.
+Qed.
+
+(* an unbuffered pool never holds a task in its channel (so no worker can exit and strand one) *)
+Lemma unbuffered_never_holds : forall n ops, w_tasks (wrun (w_init 0 n) ops) = [].
+Proof.
+  intros n ops. destruct (workers_safe 0 n ops) as [_ [_ [_ H]]].
+  destruct (w_tasks (wrun (w_init 0 n) ops)); [reflexivity|simpl in H; lia].
+Qed.
+
+(* ---------------------------------------------------------------------------------- *)
+(* The seeder model's "sender queue" (running task at the head, queued tasks behind) is a   *)
+(* one-worker pool whose idle worker takes the next task at once.                           *)
+(* ---------------------------------------------------------------------------------- *)
+Definition shape (s : wstate) : list N * list wslot := (w_tasks s, w_workers s).
+
+Definition pool_of (q : list N) : list N * list wslot :=
+  match q with [] => ([], [WIdle]) | t :: r => (r, [WBusy t]) end.
+
+(* Enqueue on the queue view: possible exactly when length q <= cap (what the seeder model's
+   REnq step requires with cap = MaxSenderTasks) *)
+Lemma pool_enqueue : forall s q t,
+  shape s = pool_of q -> (length q <= w_cap s)%nat ->
+  exists ops, (forall o, In o ops -> o = WEnqueue t \/ o = WHandoff t 0) /\
+    shape (wrun s ops) = pool_of (q ++ [t]) /\
+    w_accepted (wrun s ops) = w_accepted s ++ [t] /\ w_executed (wrun s ops) = w_executed s.
+Proof.
+  intros s q t Hs Hl. unfold shape in Hs. destruct q as [|h r]; simpl in Hs; inversion Hs as [[Ht Hw]].
+  - exists [WHandoff t 0]. split; [intros o [<-|[]]; auto|]. simpl. rewrite Ht, Hw. simpl. auto.
+  - exists [WEnqueue t]. split; [intros o [<-|[]]; auto|]. simpl in *.
+    assert (E : Nat.ltb (length (w_tasks s)) (w_cap s) = true) by (apply Nat.ltb_lt; rewrite Ht; lia).
+    rewrite E. simpl. unfold shape. simpl. rewrite Ht, Hw. auto.
+Qed.
+
+Lemma pool_enqueue_blocked : forall s q t,
+  shape s = pool_of q -> (w_cap s < length q)%nat ->
+  wstep s (WEnqueue t) = None /\ forall i, wstep s (WHandoff t i) = None.
+Proof.
+  intros s q t Hs Hl. unfold shape in Hs. destruct q as [|h r]; simpl in *; [lia|]. inversion Hs as [[Ht Hw]].
+  split.
+  - assert (E : Nat.ltb (length (w_tasks s)) (w_cap s) = false) by (apply Nat.ltb_ge; rewrite Ht; lia).
+    rewrite E. reflexivity.
+  - intros i. rewrite Hw. destruct (w_tasks s); [|reflexivity].
+    destruct i as [|[|i]]; reflexivity.
+Qed.
+
+(* the running task returns: the worker takes the next one *)
+Lemma pool_deliver : forall s h r,
+  shape s = pool_of (h :: r) ->
+  exists ops, (forall o, In o ops -> o = WFinish 0 \/ o = WTake 0) /\
+    shape (wrun s ops) = pool_of r /\ w_executed (wrun s ops) = w_executed s ++ [h].
+Proof.
+  intros s h r Hs. unfold shape in Hs. simpl in Hs. inversion Hs as [[Ht Hw]].
+  destruct r as [|t' r'].
+  - exists [WFinish 0]. split; [intros o [<-|[]]; auto|]. simpl. rewrite Hw. simpl.
+    unfold shape. simpl. rewrite Ht. auto.
+  - exists [WFinish 0; WTake 0]. split; [intros o [<-|[<-|[]]]; auto|]. simpl. rewrite Hw. simpl.
+    rewrite Ht. simpl. unfold shape. simpl. auto.
 Qed.
